@@ -441,6 +441,7 @@ _SAFE_BUILTINS = {
     'ord': ord, 'len': len, 'sorted': sorted, 'enumerate': enumerate, 'str': str, 'int': int,
     'range': range, 'zip': zip, 'min': min, 'max': max, 'reversed': reversed, 'bool': bool,
     'True': True, 'False': False, 'None': None,
+    'map': lambda f, *its: [f(*xs) for xs in zip(*its)], 'sum': sum, 'any': any, 'all': all, 'abs': abs,
 }
 _SAFE_METHODS = {
     str: {'join', 'format', 'upper', 'lower', 'strip', 'split', 'replace', 'startswith', 'endswith'},
